@@ -472,6 +472,21 @@ theorem seenLookup_mem {seen : List ((Nat × Nat) × Path)} {k : Nat × Nat} {v 
     · cases h; simp [targets]
     · simp only [targets, List.map_cons, List.mem_cons]; exact Or.inr (ih h)
 
+theorem iterStep_of_none {cfg : Cfg} {fnm : Fnm} {rel : Path} {dirDev : Nat} {seen : List ((Nat × Nat) × Path)} {name : Name}
+    {s : Stat} (h : (treeIterStep cfg fnm (nativeEntry rel dirDev name s)).1 = none) :
+    (iterStep cfg fnm rel dirDev seen name s).out = none ∧ (iterStep cfg fnm rel dirDev seen name s).seen = seen := by
+  simp only [iterStep, h, and_self]
+
+theorem iterStep_of_some {cfg : Cfg} {fnm : Fnm} {rel : Path} {dirDev : Nat} {seen : List ((Nat × Nat) × Path)} {name : Name}
+    {s : Stat} {e1 : Ent} (h : (treeIterStep cfg fnm (nativeEntry rel dirDev name s)).1 = some e1) :
+    (iterStep cfg fnm rel dirDev seen name s).out =
+        some (if hasFlag cfg.flags dirScanNoHardlinks then (e1, none, seen) else hlNext seen e1).1 ∧
+      (iterStep cfg fnm rel dirDev seen name s).hlTarget =
+        (if hasFlag cfg.flags dirScanNoHardlinks then (e1, none, seen) else hlNext seen e1).2.1 ∧
+      (iterStep cfg fnm rel dirDev seen name s).seen =
+        (if hasFlag cfg.flags dirScanNoHardlinks then (e1, none, seen) else hlNext seen e1).2.2 := by
+  simp only [iterStep, h, and_self]
+
 theorem iterStep_cases (cfg : Cfg) (fnm : Fnm) (rel : Path) (dirDev : Nat) (seen : List ((Nat × Nat) × Path)) (name : Name)
     (s : Stat) (hp : cfg.pfx = []) :
     (∀ e2, (iterStep cfg fnm rel dirDev seen name s).out = some e2 → e2.path = rel ++ [name]) ∧
@@ -481,41 +496,53 @@ theorem iterStep_cases (cfg : Cfg) (fnm : Fnm) (rel : Path) (dirDev : Nat) (seen
             isType e2.mode sIFLNK = true) ∨
       ((iterStep cfg fnm rel dirDev seen name s).seen = ((s.dev, s.ino), rel ++ [name]) :: seen ∧
         ∀ e2, (iterStep cfg fnm rel dirDev seen name s).out = some e2 → e2.hard = false ∧ isDirMode e2.mode = false)) := by
-  have hpath : ∀ (e : Ent), e.rel = rel ++ [name] → (applyChanges cfg e).path = rel ++ [name] := by
-    intro e he; simp [applyChanges, hp, he]
-  have hhard : ∀ (e : Ent), (applyChanges cfg e).hard = e.hard := fun e => rfl
-  simp only [iterStep]
-  by_cases hnh : hasFlag cfg.flags dirScanNoHardlinks = true
-  · simp only [hnh, if_true]
-    refine ⟨fun e2 h => by rw [treeIterStep_out h]; exact hpath _ rfl, Or.inl ⟨by first | rfl | trivial, ?_⟩⟩
-    intro e2 h hh
-    rw [treeIterStep_out h, hhard] at hh
-    simp [nativeEntry] at hh
-  · simp only [hnh, Bool.false_eq_true, if_false, hlNext]
-    by_cases hd : isDirMode (nativeEntry rel dirDev name s).mode = true
-    · simp only [hd, if_true]
-      refine ⟨fun e2 h => by rw [treeIterStep_out h]; exact hpath _ rfl, Or.inl ⟨by first | rfl | trivial, ?_⟩⟩
+  cases hti : (treeIterStep cfg fnm (nativeEntry rel dirDev name s)).1 with
+  | none =>
+    obtain ⟨ho, hs⟩ := iterStep_of_none (seen := seen) hti
+    rw [ho, hs]
+    exact ⟨fun e2 h => (by cases h), Or.inl ⟨rfl, fun e2 h => (by cases h)⟩⟩
+  | some e1 =>
+    obtain ⟨ho, ht, hs⟩ := iterStep_of_some (seen := seen) hti
+    rw [ho, ht, hs]
+    have he1 := treeIterStep_out hti
+    have hpath1 : e1.path = rel ++ [name] := by rw [he1]; simp [applyChanges, hp, nativeEntry]
+    have hhard1 : e1.hard = false := by rw [he1]; rfl
+    have hdev : (e1.dev, e1.ino) = (s.dev, s.ino) := by rw [he1]; rfl
+    by_cases hnh : hasFlag cfg.flags dirScanNoHardlinks = true
+    · rw [if_pos hnh]
+      refine ⟨fun e2 h => by cases h; exact hpath1, Or.inl ⟨rfl, ?_⟩⟩
       intro e2 h hh
-      rw [treeIterStep_out h, hhard] at hh
-      simp [nativeEntry] at hh
-    · simp only [hd, Bool.false_eq_true, if_false]
-      cases hs : seenLookup seen ((nativeEntry rel dirDev name s).dev, (nativeEntry rel dirDev name s).ino) with
-      | some tgt =>
-        simp only
-        refine ⟨fun e2 h => by rw [treeIterStep_out h]; exact hpath _ rfl, Or.inl ⟨by first | rfl | trivial, ?_⟩⟩
-        intro e2 h _
-        refine ⟨tgt, rfl, seenLookup_mem hs, ?_⟩
-        rw [treeIterStep_out h, applyChanges_isType]
-        show isType (inodeModeLnk ||| 511) sIFLNK = true
-        decide
-      | none =>
-        simp only
-        refine ⟨fun e2 h => by rw [treeIterStep_out h]; exact hpath _ rfl, Or.inr ⟨by first | rfl | trivial, ?_⟩⟩
-        intro e2 h
-        rw [treeIterStep_out h]
-        refine ⟨rfl, ?_⟩
-        simp only [isDirMode, applyChanges_isType]
-        simpa [isDirMode] using hd
+      cases h
+      rw [hhard1] at hh; cases hh
+    · rw [if_neg hnh]
+      by_cases hd : isDirMode e1.mode = true
+      · have hl : hlNext seen e1 = (e1, none, seen) := by simp only [hlNext, hd, if_true]
+        rw [hl]
+        refine ⟨fun e2 h => by cases h; exact hpath1, Or.inl ⟨rfl, ?_⟩⟩
+        intro e2 h hh
+        cases h
+        rw [hhard1] at hh; cases hh
+      · cases hsl : seenLookup seen (e1.dev, e1.ino) with
+        | some tgt =>
+          have hl : hlNext seen e1 = ({ e1 with mode := inodeModeLnk ||| 0o777, hard := true }, some tgt, seen) := by
+            simp only [hlNext, hd, Bool.false_eq_true, if_false, hsl]
+          rw [hl]
+          refine ⟨fun e2 h => by cases h; exact hpath1, Or.inl ⟨rfl, ?_⟩⟩
+          intro e2 h _
+          cases h
+          refine ⟨tgt, rfl, seenLookup_mem hsl, ?_⟩
+          show isType (inodeModeLnk ||| 511) sIFLNK = true
+          decide
+        | none =>
+          have hl : hlNext seen e1 = (e1, none, ((e1.dev, e1.ino), e1.path) :: seen) := by
+            simp only [hlNext, hd, Bool.false_eq_true, if_false, hsl]
+          rw [hl]
+          refine ⟨fun e2 h => by cases h; exact hpath1, Or.inr ⟨?_, ?_⟩⟩
+          · show ((e1.dev, e1.ino), e1.path) :: seen = _
+            rw [hpath1, hdev]
+          · intro e2 h
+            cases h
+            exact ⟨hhard1, by simpa using hd⟩
 
 /-! ### H. the invariant holds along the whole walk -/
 
